@@ -570,11 +570,15 @@ impl Check for C17 {
             ctx.nontrivial(prng::mix(&[hh, i as u64]));
         }
         for (sig, what, _) in found {
-            ctx.pre_violation(&sig, &what, &json!({"history": hv}));
-            ctx.progress("minimise");
-            let hm = if std::env::var_os("CAOSIM_NO_SHRINK").is_none() { shrink_history(&h, &sig) } else { h.clone() };
-            ctx.violation(sig, what, json!({"history": hm, "steps": hm.steps.len()}));
+            ctx.violation(sig, what, json!({"history": hv, "steps": h.steps.len()}));
         }
+    }
+    fn minimise(&self, replay: &Json, sig: &Json) -> Json {
+        let Some(h) = replay.get("history").and_then(|h| serde_json::from_value::<History>(h.clone()).ok()) else {
+            return replay.clone();
+        };
+        let hm = shrink_history(&h, sig);
+        json!({"history": hm, "steps": hm.steps.len()})
     }
     fn replay(&self, replay: &Json, ctx: &mut CaseCtx) {
         let Some(h) = replay.get("history").and_then(|h| serde_json::from_value::<History>(h.clone()).ok()) else { return };
